@@ -6,6 +6,7 @@ import (
 	"errors"
 	"fmt"
 	"io"
+	"reflect"
 	"sync"
 	"testing"
 	"testing/synctest"
@@ -18,6 +19,7 @@ import (
 	mocknet "github.com/libp2p/go-libp2p/p2p/net/mock"
 
 	datatransfer "github.com/filecoin-project/go-data-transfer/v2"
+	"github.com/filecoin-project/go-data-transfer/v2/message/types"
 	"github.com/filecoin-project/go-data-transfer/v2/network"
 
 	"verif/harness/internal/cborx"
@@ -38,8 +40,8 @@ type flakyHost struct {
 	t0       time.Time
 	pattern  []bool // true = this NewStream call fails
 	calls    []nsCall
-	stallNth int           // this call (0-based) stalls until its context ends (-1 = none)
-	writeErr int           // >=0: streams fail Write after this many bytes
+	stallNth int // this call (0-based) stalls until its context ends (-1 = none)
+	writeErr int // >=0: streams fail Write after this many bytes
 	streams  []*flakyStream
 }
 
@@ -128,15 +130,24 @@ type recReceiver struct {
 
 func (r *recReceiver) add(c rcvCall) { r.mu.Lock(); r.calls = append(r.calls, c); r.mu.Unlock() }
 func (r *recReceiver) ReceiveRequest(ctx context.Context, s peer.ID, m datatransfer.Request) {
+	if m == nil || reflect.ValueOf(m).Kind() == reflect.Ptr && reflect.ValueOf(m).IsNil() {
+		r.add(rcvCall{handler: "request-without-body", from: s})
+		return
+	}
 	r.add(rcvCall{handler: "request", from: s, view: viewMsg(m)})
 }
 func (r *recReceiver) ReceiveResponse(ctx context.Context, s peer.ID, m datatransfer.Response) {
+	if m == nil || reflect.ValueOf(m).Kind() == reflect.Ptr && reflect.ValueOf(m).IsNil() {
+		r.add(rcvCall{handler: "response-without-body", from: s})
+		return
+	}
 	r.add(rcvCall{handler: "response", from: s, view: viewMsg(m)})
 }
 func (r *recReceiver) ReceiveRestartExistingChannelRequest(ctx context.Context, s peer.ID, m datatransfer.Request) {
 	r.add(rcvCall{handler: "restart", from: s, view: viewMsg(m)})
 }
 func (r *recReceiver) ReceiveError(err error) { r.add(rcvCall{handler: "error", err: err.Error()}) }
+func (r *recReceiver) reset()                 { r.mu.Lock(); r.calls = nil; r.mu.Unlock() }
 func (r *recReceiver) snapshot() []rcvCall {
 	r.mu.Lock()
 	defer r.mu.Unlock()
@@ -334,6 +345,49 @@ func TestC15Send(t *testing.T) {
 				c.Violation("C15", "delivered-despite-error", "SendMessage failed (%v) but the peer's handler was called %d times", res.err, msgs)
 			}
 		}
+		// a second send through the same network object: its attempts are its own - whatever the first send
+		// went through (cancelled in a back-off pause, exhausted, failed on write), the second one makes at most
+		// the configured attempts and succeeds exactly when one of them opens a stream
+		if returned {
+			k := r.Intn(eff + 2) // leading failures; k >= eff exhausts the attempts
+			p2 := make([]bool, k)
+			for i := range p2 {
+				p2[i] = true
+			}
+			fh.mu.Lock()
+			fh.calls, fh.pattern, fh.stallNth, fh.writeErr, fh.streams = nil, p2, -1, -1, nil
+			fh.mu.Unlock()
+			r2.reset()
+			b2 := buildMsg(r, r.Intn(12))
+			done2 := make(chan error, 1)
+			go func() { done2 <- n1.SendMessage(context.Background(), h2.ID(), b2.m) }()
+			time.Sleep(30 * time.Minute)
+			synctest.Wait()
+			select {
+			case err2 := <-done2:
+				fh.mu.Lock()
+				n2calls := len(fh.calls)
+				fh.mu.Unlock()
+				if k < eff {
+					if err2 != nil {
+						c.Violation("C15", "second-send-failed-though-attempt-succeeded", "second send on the same network: attempt #%d of %v opens a stream, yet SendMessage returned %v after %d attempts (first send: mode %d, %d attempts, err %v)", k+1, attempts, err2, n2calls, mode, len(calls), res.err)
+					}
+					if n2calls != k+1 {
+						c.Violation("C15", "second-send-attempt-count", "second send on the same network: expected %d NewStream calls (first success), saw %d (first send: mode %d, err %v)", k+1, n2calls, mode, res.err)
+					}
+				} else {
+					if err2 == nil {
+						c.Violation("C15", "second-send-succeeded-without-stream", "second send: all %d attempts fail, yet SendMessage returned nil", eff)
+					}
+					if n2calls != eff {
+						c.Violation("C15", "second-send-attempt-count", "second send on the same network: all attempts fail, expected exactly %d NewStream calls, saw %d (first send: mode %d, err %v)", eff, n2calls, mode, res.err)
+					}
+				}
+				c.Count("second_sends", 1)
+			default:
+				c.Violation("C15", "second-send-never-returned", "second SendMessage on the same network still running after 30 virtual minutes")
+			}
+		}
 		c.Mark("plen=%d att=%v mode=%d calls=%d err=%v", plen, attempts, mode, len(calls), res.err != nil)
 		c.Count("newstream_calls", len(calls))
 		c.NonTrivial()
@@ -386,8 +440,16 @@ func TestC15Inbound(t *testing.T) {
 			stream.Write(bb.Bytes())
 			want = append(want, viewMsg(b.m))
 		}
-		tail := r.Intn(4) // 0 clean EOF, 1 garbage, 2 structurally mutated message, 3 truncated message
+		tail := r.Intn(6) // 0 clean EOF, 1 garbage, 2 structurally mutated message, 3 truncated message, 4 well-formed envelope without a body, 5 envelope whose flag names the body that is absent
 		switch tail {
+		case 4:
+			stream.Write(cborx.Encode(cborx.M{"IsRq": r.Intn(2) == 0, "Request": nil, "Response": nil}))
+		case 5:
+			if r.Intn(2) == 0 {
+				stream.Write(cborx.Encode(cborx.M{"IsRq": true, "Request": nil, "Response": respMap(uint64(types.NewMessage), 7, true, false, nil, "")["Response"]}))
+			} else {
+				stream.Write(cborx.Encode(cborx.M{"IsRq": false, "Response": nil, "Request": reqMap(uint64(types.CancelMessage), 7, false, false, nil, nil, nil, "", nil)["Request"]}))
+			}
 		case 1:
 			g := make([]byte, 1+r.Intn(30))
 			r.Read(g)
@@ -454,7 +516,7 @@ func TestC15Inbound(t *testing.T) {
 		default:
 			rerr = errors.New("stream still open")
 		}
-		if tail == 1 || tail == 2 {
+		if tail == 1 || tail == 2 || tail == 4 || tail == 5 {
 			if nerr == 0 {
 				c.Violation("C15", "malformed-stream-not-reported", "malformed tail (kind %d) produced no ReceiveError", tail)
 			}
